@@ -69,6 +69,11 @@ func getDistillationFunc(dm *model.DecisionMaker) *utils.LinearFunctionParameter
 	} else {
 		parameters := utils.LinearFunctionParameters{}
 		utils.DecodeToStruct(params, &parameters)
+		// credibility values lie in [0,1]; a function that is negative there moves the cut level upwards,
+		// so the distillation would recurse without ever making progress
+		if parameters.B < 0 || parameters.A+parameters.B < 0 {
+			panic(fmt.Errorf("electre distillation function %v must not be negative on [0,1]", &parameters))
+		}
 		return &parameters
 	}
 }
